@@ -31,12 +31,12 @@ macro_rules! dispatch_event {
         #[cfg(feature = "verif")]
         crate::verif::inflight_inc();
         Handle::current().spawn(async move {
+            #[cfg(feature = "verif")]
+            let _verif_guard = crate::verif::InflightGuard;
             let handlers = handles.read().unwrap();
             for handle in handlers.iter() {
                 (handle)($(&$item),+);
             }
-            #[cfg(feature = "verif")]
-            crate::verif::inflight_dec();
         });
     };
 }
@@ -60,12 +60,12 @@ macro_rules! dispatch_key_event {
         #[cfg(feature = "verif")]
         crate::verif::inflight_inc();
         Handle::current().spawn(async move {
+            #[cfg(feature = "verif")]
+            let _verif_guard = crate::verif::InflightGuard;
             let handlers = handles.read().unwrap();
             for (_, handle) in handlers.iter() {
                 (handle)($(&$item),+);
             }
-            #[cfg(feature = "verif")]
-            crate::verif::inflight_dec();
         });
     };
 }
